@@ -35,6 +35,8 @@ pub enum Scheme {
     V4Presigned,
     V2Header,
     V2Presigned,
+    /// no signature at all: with a provider and the default access check it is refused, whatever was verified before it
+    Anonymous,
 }
 
 #[derive(Clone, Debug)]
@@ -64,6 +66,7 @@ fn make(scheme: Scheme, named_key: &str, signing_secret: &str, region: &str, key
             r.headers.push(("authorization".into(), format!("AWS {named_key}:{sig}").into_bytes()));
             r
         }
+        Scheme::Anonymous => Req::new("GET", &path).header("host", HOST),
         Scheme::V2Presigned => {
             let mut r = Req::new("GET", &path).header("host", HOST);
             let expires = NOW_MS / 1000 + 900;
@@ -77,6 +80,9 @@ fn make(scheme: Scheme, named_key: &str, signing_secret: &str, region: &str, key
 
 /// the request alphabet of one scheme: two identities x {honest, signed with the other identity's secret} x two regions
 pub fn alphabet(scheme: Scheme) -> Vec<Item> {
+    if scheme == Scheme::Anonymous {
+        return vec![Item { name: "anonymous".into(), scheme, req: make(scheme, "", "", "-", "k") }];
+    }
     let mut v = Vec::new();
     let regions: &[&str] = if matches!(scheme, Scheme::V4Header | Scheme::V4Presigned) { &["us-east-1", "eu-west-1"] } else { &["-"] };
     for region in regions {
@@ -93,6 +99,7 @@ fn reference(it: &Item) -> Verdict {
         Scheme::V4Header => verify_v4_header(&it.req, b"", &secret_of),
         Scheme::V4Presigned => verify_v4_presigned(&it.req, NOW_MS, &secret_of),
         Scheme::V2Header | Scheme::V2Presigned => crate::props::c11::verify_v2(&it.req, NOW_MS / 1000, None, &secret_of),
+        Scheme::Anonymous => Verdict::Reject("anonymous request under the default access check"),
     }
 }
 
